@@ -152,6 +152,7 @@ struct Inst {
     tag: BTreeMap<String, String>,
     vers: BTreeMap<u64, Sv>,
     salt: u64,
+    free_tags: bool,
 }
 
 fn tpl_path(inst: &Inst, e: &Value) -> String {
@@ -207,6 +208,16 @@ fn make_endpoint(_r: &mut StdRng, inst: &Inst, e: &Value) -> ApiEndpoint<()> {
     ep.visible = e["vis"].as_bool().unwrap_or(true);
     for t in jarr(&e["tags"]) {
         ep.tags.push(inst.tag[&jstr(&t)].clone());
+    }
+    // Where the tag policy does not care (the configurations that are about routing and documents), every
+    // endpoint also carries a few ad hoc tags from a family whose members differ only in case: the
+    // document's tag list must come out the same whatever order a hash set hands them over in.
+    if inst.free_tags {
+        for t in ["disks", "Disks", "DISKS", "instances"] {
+            if r.gen_bool(0.4) {
+                ep.tags.push(t.to_string());
+            }
+        }
     }
     let mut params = vec![];
     for (n, c) in jobj(&e["pty"]) {
@@ -456,6 +467,8 @@ fn replay(r: &mut StdRng, vec: &Value, plain: bool) -> Value {
         tag: instantiate(r, &tags, plain, |r| format!("tag{}", r.gen_range(0..1000)), &[]),
         vers: (1..=maxv).map(|i| (i, chain[i as usize].clone())).collect(),
         salt: r.gen(),
+        free_tags: jstr(&vec["tagpolicy"]) == "any" && vec["allowother"].as_bool().unwrap_or(true)
+            && jarr(&vec["knowntags"]).is_empty() && all_eps.iter().all(|e| jarr(&e["tags"]).is_empty()),
     };
     let inst_json = json!({
         "lit": inst.lit, "var": inst.var,
